@@ -2,6 +2,7 @@
 import json
 from bodies import Tokens
 from storefam import gen_many, run_templates, replay_store
+from httpfam import run_http_templates
 
 AUDIT = "Audit/C08.lean"
 MODULE = "Xandikos.Theorems.C08"
@@ -16,6 +17,7 @@ def run(chk):
     n = 12 if chk.tier == "quick" else 150
     tmpls = gen_many(chk, toks, n, 25 if chk.tier == "quick" else 40, PROFILE)
     run_templates(chk, tmpls, toks, PREFIXES, kinds=["bare-mem", "bare-disk", "tree"])
+    run_http_templates(chk, toks, 5 if chk.tier == "quick" else 60, 22 if chk.tier == "quick" else 30, "tags", PREFIXES, check_tags=True)
 
 
 def replay(chk, path):
